@@ -20,7 +20,7 @@ MANIFEST = {
           'equal the independent reference implementation; after any history routing must equal a fresh ring of '
           'the live nodes in configured order.',
   'note': 'Trusted: mc/ref/ring.py (anchored to the literal expectations of the repo\'s test_hashing.py by the '
-          'self-test). History independence fails on collision-bumped replicas (known finding F7).',
+          'self-test). History independence fails on collision-bumped replicas (known finding F7). carbonHash is compared with the published hash of the UTF-8 bytes on non-ASCII key families.',
 }
 
 HASHES = ('carbon_ch', 'fnv1a_ch')
